@@ -344,15 +344,12 @@ theorem rewardsToPool_number (p : Params) (s : St) (cb : Addr) : (rewardsToPool 
   repeat' split
   all_goals simp [distributeBlock, credit]
 
-theorem total_reset (s : St) : total { s with lost := 0, lostDel := 0 } = total s := rfl
-
 theorem endBlock_within_period (p : Params) (s : St) (cb : Addr) (order : List (Addr × Addr)) (hI : Inv s)
     (hn : (s.number + 1) % p.freq ≠ 0) (hok : (endBlock p s cb order).2 = .ok) :
     total (endBlock p s cb order).1 = total s ∧ Inv (endBlock p s cb order).1 := by
   unfold endBlock at *
-  simp only at *
-  have hI' : Inv { s with lost := 0, lostDel := 0 } := hI
-  generalize hs0 : ({ s with lost := 0, lostDel := 0 } : St) = s0 at *
+  have hI' : Inv { s with lost := 0, lostDel := 0, lostOther := 0 } := hI
+  generalize hs0 : ({ s with lost := 0, lostDel := 0, lostOther := 0 } : St) = s0 at *
   have hnum : s0.number = s.number := by subst hs0; rfl
   have ht0 : total s0 = total s := by subst hs0; rfl
   have hr := rewardsToPool_total p s0 cb hI'.1 hI'.2.1
@@ -372,136 +369,4 @@ theorem endBlock_within_period (p : Params) (s : St) (cb : Addr) (order : List (
     · rw [removeInvalid_total, removedMoney_zero h2.2.2, h1, ht0]; omega
     · exact ⟨by simpa [removeInvalid] using h2.1, by simpa [removeInvalid] using h2.2.1, removeInvalid_valid s1⟩
 
-def unfinishedVal (r : WRec) : Int := if r.finished then 0 else r.final
-
-theorem payRec_spec (n : Nat) (r : WRec) (h : 0 ≤ r.final) : unfinishedVal (payRec n r).1 + (payRec n r).2 = unfinishedVal r := by
-  unfold payRec unfinishedVal
-  split
-  · simp; intro _; omega
-  · split
-    · rename_i h2; simp [h2.2]
-    · simp
-
-theorem discardRec_finished {p : Params} {n : Nat} {r : WRec} (h : discardRec p n r = true) : unfinishedVal r = 0 := by
-  unfold discardRec at h
-  simp at h
-  simp [unfinishedVal, h.1]
-
-/-- processWithdrawQueue pays each matured unfinished record exactly once (it is marked finished in the same step) and
-never touches a finished one: balances + unfinished records are unchanged -/
-theorem processQueue_spec (p : Params) (n : Nat) (q : List WRec) (bal : List (Addr × Int)) (h : ∀ r ∈ q, 0 ≤ r.final) :
-    sumUnfinished (processQueue p n q bal).1 + sumI (processQueue p n q bal).2 = sumUnfinished q + sumI bal := by
-  induction q generalizing bal with
-  | nil => simp [processQueue]
-  | cons r t ih =>
-    have h0 := payRec_spec n r (h r List.mem_cons_self)
-    have ht : ∀ x ∈ t, 0 ≤ x.final := fun x hx => h x (List.mem_cons_of_mem _ hx)
-    have := ih (addI bal r.recipient (payRec n r).2) ht
-    rw [sumI_addI] at this
-    unfold processQueue
-    simp only
-    split
-    · rename_i hd
-      have := discardRec_finished hd
-      simp only [sumUnfinished]; unfold unfinishedVal at *; omega
-    · simp only [sumUnfinished]; unfold unfinishedVal at *; omega
-
-theorem sumUnfinished_append (q : List WRec) (r : WRec) : sumUnfinished (q ++ [r]) = sumUnfinished q + unfinishedVal r := by
-  induction q with
-  | nil => simp [sumUnfinished, unfinishedVal]
-  | cons h t ih => simp [sumUnfinished, ih]; omega
-
-theorem takeEffect_deposit (p : Params) (s : St) (t : PTx) (hk : t.kind = 3) (hok : (takeEffect p s t).2 = .ok) :
-    total (takeEffect p s t).1 = total s + t.value := by
-  unfold takeEffect at *
-  simp only [hk] at *
-  split
-  · simp_all
-  · rename_i v hg
-    have ha := getVal_addr hg
-    split
-    · exact total_credit _ _ _
-    · simp [total, sumVals_putVal, storedMoney, valMoney, ha, hg]; omega
-
-theorem takeEffect_withdraw (p : Params) (s : St) (t : PTx) (hk : t.kind = 4) (hok : (takeEffect p s t).2 = .ok) :
-    total (takeEffect p s t).1 = total s := by
-  unfold takeEffect at *
-  simp only [hk] at *
-  split
-  · simp_all
-  · rename_i v hg
-    have ha := getVal_addr hg
-    simp [total, sumVals_putVal, storedMoney, valMoney, ha, hg, sumUnfinished_append, unfinishedVal]; omega
-
-theorem takeEffect_meta (p : Params) (s : St) (t : PTx) (hk : t.kind = 2 ∨ t.kind = 5) (hok : (takeEffect p s t).2 = .ok) :
-    total (takeEffect p s t).1 = total s := by
-  unfold takeEffect at *
-  rcases hk with hk | hk <;> simp only [hk] at *
-  · split
-    · simp_all
-    · rename_i v hg
-      have ha := getVal_addr hg
-      simp [total, sumVals_putVal, storedMoney, valMoney, ha, hg]
-  · split
-    · simp_all
-    · rename_i v hg
-      have ha := getVal_addr hg
-      split
-      · rfl
-      · simp [total, sumVals_putVal, storedMoney, valMoney, ha, hg]
-
-theorem updateDelegation_money (u : Int) (v : Val) (d : Addr) (x : Int) (h : (getDeleg v.delegs d).isSome ∨ 0 ≤ x) :
-    valMoney (updateDelegation u v d x) = valMoney v + x ∧ (updateDelegation u v d x).addr = v.addr := by
-  unfold updateDelegation
-  split
-  · simp_all
-  · split
-    · split
-      · rename_i hn hl; simp [hn] at h; omega
-      · simp [valMoney]; omega
-    · simp [valMoney]; omega
-
-theorem takeEffect_create (p : Params) (s : St) (t : PTx) (hk : t.kind = 1) (hc : getVal s.vals t.val = none) :
-    total (takeEffect p s t).1 = total s + t.value := by
-  unfold takeEffect
-  simp [hk, hc, total, sumVals_putVal, storedMoney, valMoney]; omega
-
-theorem takeEffect_delegationAdd (p : Params) (s : St) (t : PTx) (hk : t.kind = 16) (hv : 0 ≤ t.value)
-    (hok : (takeEffect p s t).2 = .ok) : total (takeEffect p s t).1 = total s + t.value := by
-  unfold takeEffect at *
-  simp only [hk] at *
-  split
-  · simp_all
-  · rename_i v hg
-    have ha := getVal_addr hg
-    have hm := updateDelegation_money p.unit v t.sender t.value (Or.inr hv)
-    split
-    · exact total_credit _ _ _
-    · split
-      · exact total_credit _ _ _
-      · simp [total, sumVals_putVal, storedMoney, hm.1, hm.2, ha, hg]; omega
-
-
-/-- all take-effect handlers except delegation-sub (kind 17): exactly the detained value leaves "pending" -/
-theorem takeEffect_partial (p : Params) (s : St) (t : PTx) (h17 : t.kind ≠ 17) (hc : t.kind = 1 → getVal s.vals t.val = none)
-    (hv : t.kind = 16 → 0 ≤ t.value) (hok : (takeEffect p s t).2 = .ok) :
-    total (takeEffect p s t).1 = total s + (if detains t.kind then t.value else 0) := by
-  by_cases h1 : t.kind = 1
-  · rw [takeEffect_create p s t h1 (hc h1)]; simp [detains, h1]
-  by_cases h3 : t.kind = 3
-  · rw [takeEffect_deposit p s t h3 hok]; simp [detains, h3]
-  by_cases h16 : t.kind = 16
-  · rw [takeEffect_delegationAdd p s t h16 (hv h16) hok]; simp [detains, h16]
-  have hd : detains t.kind = false := by simp [detains, h1, h3, h16]
-  simp only [hd]
-  by_cases h4 : t.kind = 4
-  · rw [takeEffect_withdraw p s t h4 hok]; simp
-  by_cases h2 : t.kind = 2
-  · rw [takeEffect_meta p s t (Or.inl h2) hok]; simp
-  by_cases h5 : t.kind = 5
-  · rw [takeEffect_meta p s t (Or.inr h5) hok]; simp
-  have : takeEffect p s t = (s, .ok) := by
-    unfold takeEffect
-    split <;> simp_all
-  rw [this]; simp
 end YouVerif.C07
